@@ -25,6 +25,9 @@ ASSUMPTIONS = ["postcard encode/decode are inverse (trusted)", "redb tables are 
 DP = "download_policy"
 
 
+EXPLANATION += ' (R9, round 9) = C12.R3: the download flag of a remote insert is computed from the policy the store holds now, on both ingress paths. R8 also carries the destructor rows of C06.R4.'
+
+
 def _str_consts_on_path(body, path):
     out = []
     for bi in path.blocks:
